@@ -27,7 +27,7 @@ def run_job(slot, spec):
     src, prop = os.path.abspath(parts[0]), parts[1]
     tier = parts[2] if len(parts) > 2 else 'quick'
     name = os.path.basename(os.path.dirname(src)) + '-' + os.path.basename(src) if os.path.basename(src).startswith('m') else os.path.basename(src)
-    wt = f'/tmp/seedpar-wt-{os.getpid()}-{name}'
+    wt = f'/tmp/seedpar-wt-{os.getpid()}-{name}-{prop}'
     log = open(f'{BASE}/{name}.log', 'w')
     res = {'name': name, 'prop': prop}
     try:
